@@ -5,6 +5,9 @@
 set -e
 P=$1; NAME=$2; WT=/tmp/wt-$P; OUT=/tmp/seed-out/$P
 cd $WT
+git stash clear || true
+git checkout -q -- src
+git apply $OUT/patch.diff
 git diff -- src > /tmp/seed-out/$P/patch.confirm.diff
 test -s /tmp/seed-out/$P/patch.confirm.diff
 mkdir -p tests; cp $OUT/demo.rs tests/demo.rs
